@@ -123,3 +123,7 @@ def run(facts, chk, tier, only=None):
     chk.guard('C10.func', 'C10.func:delete_samples', lambda: tableops.check_delete(facts, chk, 'C10.func', 'quick'))
     chk.guard('C10.func', 'C10.func:weed', lambda: tableops.check_weed(facts, chk, 'C10.func', 'quick'))
     chk.guard('C10.func', 'C10.func:merge', lambda: tableops.check_merge_pipeline(facts, chk, 'C10.func', 'quick'))
+    # a sequence through saved files: build -> weed (everything removed) -> merge, with the real generic_modes::merge over virtual .skf files
+    from . import e2e2
+    chk.guard('C10.func', 'C10.func:merge-empty:run', lambda: e2e2.check_merge_empty(facts, chk, 'C10.func', tier))
+    chk.guard('C10.func', 'C10.func:merge-files:run', lambda: e2e2.check_merge_e2e(facts, chk, 'C10.func', 'quick'))
